@@ -12,6 +12,7 @@ package http1
 
 import (
 	"bytes"
+	"errors"
 	"fmt"
 	"strings"
 	"testing"
@@ -147,6 +148,10 @@ func c24CheckStream(tb ev.TB, rec *ev.Rec, stream []byte, segs []int, gen string
 		lastErr = err
 		if pv != nil {
 			disc = &c24Disc{keys: []string{"panic"}, msg: fmt.Sprintf("bfe panicked on request %d: %v", i, pv)}
+			break
+		}
+		if errors.Is(err, errBodyExceedsInput) || errors.Is(err, errReadNoProgress) {
+			disc = &c24Disc{keys: []string{"body-reader-runaway"}, msg: fmt.Sprintf("request %d at offset %d: %v", i, pos, err)}
 			break
 		}
 		if err == nil {
